@@ -47,6 +47,8 @@ DOCS = {
   "A9": [st("html"), st("body", ' title="~e~"'), tx("caf", "~e~", " ~z~~g~"), st("p"), tx("~u~"), et("p"), et("body"), et("html")],
   "A10": [st("html"), st("body"), sc("span"), st("p"), tx("t"), et("p"), sc("path", ' d="m"'), et("body"), et("html")],
   "A11": [st("html"), st("body"), st("div", ' class="x"', True), txlt("if (a ", "< b)"), st("p"), tx("t"), et("p"), et("div"), st("div"), txlt("1 <", " 2"), et("div"), et("body"), et("html")],
+  # ~big~ is expanded by the harness to 70 000 highly compressible bytes
+  "A12": [st("html"), st("body"), tx("~big~"), st("p"), tx("t"), et("p"), et("body"), et("html")],
   # ---- comments, raw text, malformed, truncated (C03 / C04) ----
   "B1": [st("html"), COPEN, tx(" "), st("body"), tx(" "), CCLOSE, st("body"), tx("x"), et("body"), et("html")],
   "B2": [st("html"), st("head"), st("title"), tx("x "), st("body"), tx(" y"), et("title"), et("head"), st("body"), tx("z"), et("body"), et("html")],
